@@ -449,7 +449,12 @@ class SnapshotMetadata:
 
     @classmethod
     def from_yaml(cls, yaml_str: str) -> "SnapshotMetadata":
-        d = yaml.load(yaml_str, Loader=Loader)
+        # to_yaml() emits json, which the yaml loader can't always read back
+        # (e.g. escaped non-BMP characters, keys longer than 1024 characters).
+        try:
+            d = json.loads(yaml_str)
+        except ValueError:
+            d = yaml.load(yaml_str, Loader=Loader)
         manifest: Manifest = {}
         for path, yaml_obj in d["manifest"].items():
             type_name = yaml_obj["type"]
